@@ -205,6 +205,22 @@ theorem indexOfPages_le {α} {bnd : List α → Option (α × α)} {key : α →
       have := hb.encloses _ mn mx hbnd x0 (by rw [hxs]; simp)
       omega
 
+/-- `find_no_miss_writer` of `Props/C06.lean`, proved here so that the model files do not import the property file -/
+theorem find_no_miss_writer_core (nf : Bool) (z : Int) (ix : Index) (v : Int)
+    (hlen : ix.maxs.length = ix.mins.length)
+    (hle : ∀ i a b, i < ix.n → minAt ix i = some a → maxAt ix i = some b → a ≤ b) :
+    find nf (writerOrder z ix == 1) ix v ≤ ix.n ∧
+    (find nf (writerOrder z ix == 1) ix v < ix.n → contains nf ix (find nf (writerOrder z ix == 1) ix v) v = true) ∧
+    (∀ p, p < ix.n → contains nf ix p v = true → find nf (writerOrder z ix == 1) ix v ≤ p) := by
+  unfold find
+  by_cases hc : ((writerOrder z ix == 1) && !hasNull ix) = true
+  · rw [if_pos hc]
+    simp only [Bool.and_eq_true, Bool.not_eq_true', beq_iff_eq] at hc
+    obtain ⟨mn, mx, ha⟩ := writerOrder_ascending z ix hlen hc.1 hc.2 hle
+    exact binarySearch_first nf ha v
+  · rw [if_neg hc]
+    exact linearSearch_first nf ix v
+
 /-- C06 ON VALUES. Pages of values (nulls anywhere, all-null pages, any number of pages, any arrangement), the
     index the writer builds from them with ANY bounds function that satisfies `BoundsFor`, the boundary order the
     indexer computes (`writerOrder`, null pages stored as `z`): for a value `x` held by page `p`, `Find` returns a
@@ -219,26 +235,10 @@ theorem find_no_miss_values {α} (nf : Bool) (z : Int) {bnd : List α → Option
   have hc : contains nf ix p (key x) = true := contains_of_mem nf hb pages p hp x hx
   have hn : ix.n = pages.length := indexOfPages_n bnd key pages
   have hlen : ix.maxs.length = ix.mins.length := by simp [ix, indexOfPages]
-  have hfind := Props_find_no_miss_writer nf z ix (key x) hlen (indexOfPages_le hb pages)
+  have hfind := find_no_miss_writer_core nf z ix (key x) hlen (indexOfPages_le hb pages)
   obtain ⟨_, h2, h3⟩ := hfind
   have hrp : r ≤ p := h3 p (by omega) hc
   have hrn : r < ix.n := by omega
   exact ⟨hrp, hrn, h2 hrn⟩
-where
-  /-- `find_no_miss_writer` of `Props/C06.lean`, restated here so that the model file does not import the property file -/
-  Props_find_no_miss_writer (nf : Bool) (z : Int) (ix : Index) (v : Int)
-      (hlen : ix.maxs.length = ix.mins.length)
-      (hle : ∀ i a b, i < ix.n → minAt ix i = some a → maxAt ix i = some b → a ≤ b) :
-      find nf (writerOrder z ix == 1) ix v ≤ ix.n ∧
-      (find nf (writerOrder z ix == 1) ix v < ix.n → contains nf ix (find nf (writerOrder z ix == 1) ix v) v = true) ∧
-      (∀ p, p < ix.n → contains nf ix p v = true → find nf (writerOrder z ix == 1) ix v ≤ p) := by
-    unfold find
-    by_cases hc : ((writerOrder z ix == 1) && !hasNull ix) = true
-    · rw [if_pos hc]
-      simp only [Bool.and_eq_true, Bool.not_eq_true', beq_iff_eq] at hc
-      obtain ⟨mn, mx, ha⟩ := writerOrder_ascending z ix hlen hc.1 hc.2 hle
-      exact binarySearch_first nf ha v
-    · rw [if_neg hc]
-      exact linearSearch_first nf ix v
 
 end PqModel.Search
